@@ -1,6 +1,10 @@
 (* Big-step specification engine (DESIGN.md section 3.2): mirrors scanRule / processRuleScanRequest /
    demandRule / taskIsComplete / finished-task processing of lib/Core/BuildEngine.cpp for one build,
-   deterministic given a dependency-order oracle.  Definitions only. *)
+   deterministic given a dependency-order oracle.  Definitions only.
+
+   Structure: the pieces of one `ensure` step (requests, follows, run, scan) are top-level functions over a
+   Section variable `ens` standing for the recursive call at smaller fuel; `ensure` ties the knot by
+   recursion on fuel.  This keeps every piece nameable in proofs. *)
 From LLB Require Import Engine.Rules.
 Local Open Scope N_scope.
 
@@ -9,7 +13,7 @@ Record state := mkSt {
   st_epoch : N;                (* currentEpoch *)
   st_db : alist;               (* rule_results table of the attached database *)
   st_db_epoch : N;             (* info.iteration *)
-  st_flag : list key;          (* rules whose task was interrupted by a cancelled build (re-run when next scanned) *)
+  st_flag : list key;          (* rules whose task was interrupted by a cancelled build (taskWasCancelled: re-run when next scanned) *)
   st_log : list event          (* ghost: everything observed, most recent first *)
 }.
 Definition init_state : state := mkSt [] 0 [] 0 [] [].
@@ -29,6 +33,25 @@ Definition unflag (s : state) (k : key) : state :=
   mkSt (st_mem s) (st_epoch s) (st_db s) (st_db_epoch s) (filter (fun x => negb (N.eqb x k)) (st_flag s)) (st_log s).
 Definition flagged (s : state) (k : key) : bool := existsb (N.eqb k) (st_flag s).
 
+Definition drop_single (l : list dep) : list dep := filter (fun d => negb (d_single d)) l.
+Definition payload_of (v : option value) : value := match v with Some x => x | None => (0, 0) end.
+
+(* the keys a task requests once the branch slot is known *)
+Definition branch_keys (r : rule) (slots : list (option value)) : list key :=
+  match r_br r with
+  | Some (i, a, b) => match nth_error slots i with
+                      | Some (Some v) => if (Nat.ltb i (length (r_req r))) then (if is_even v then a else b) else []
+                      | Some None => if (Nat.ltb i (length (r_req r))) then a else []    (* empty value: payload read as 0 *)
+                      | None => []
+                      end
+  | None => []
+  end.
+
+(* the dependency list a task has requested, in request order *)
+Definition requested_deps (rl : rule) (bk : list key) : list dep :=
+  map (fun x => mkDep x false false) (r_req rl) ++ map (fun x => mkDep x false true) (r_single rl)
+  ++ map (fun x => mkDep x true false) (r_follow rl) ++ map (fun x => mkDep x false false) bk.
+
 Section Spec.
 Variable rules : key -> rule.
 Variable env : key -> N.
@@ -44,109 +67,115 @@ Definition obs (k : key) : N := if r_obs (rules k) then env k else 0.
 Definition valid (k : key) (r : result) : bool :=
   if r_obs (rules k) then match res_value r with Some v => N.eqb (snd v) (env k) | None => false end else true.
 
-Definition drop_single (l : list dep) : list dep := filter (fun d => negb (d_single d)) l.
+Section Step.
+(* the recursive call: bring a key up to date, given the stack of keys being brought up to date *)
+Variable ens : list key -> state -> key -> outcome.
 
-(* the keys a task requests once the branch slot is known *)
-Definition branch_keys (r : rule) (slots : list (option value)) : list key :=
-  match r_br r with
-  | Some (i, a, b) => match nth_error slots i with
-                      | Some (Some v) => if (Nat.ltb i (length (r_req r))) then (if is_even v then a else b) else []
-                      | Some None => if (Nat.ltb i (length (r_req r))) then a else []    (* empty value: payload read as 0 *)
-                      | None => []
-                      end
-  | None => []
+(* requests of task k: ensure each key, bind its value to the next slot *)
+Fixpoint requests (k : key) (stack : list key) (ks : list key) (slot : nat) (s : state) (acc : list (option value))
+  : outcome * list (option value) :=
+  match ks with
+  | [] => (Ok s, acc)
+  | x :: ks' =>
+    match ens (k :: stack) s x with
+    | Ok s1 => let v := res_value (get (st_mem s1) x) in
+               requests k stack ks' (S slot) (emit s1 (EProvide k slot x v)) (acc ++ [v])
+    | other => (other, acc)
+    end
   end.
 
-Definition payload_of (v : option value) : value := match v with Some x => x | None => (0, 0) end.
+(* must-follow keys and discovered dependencies: brought up to date, no value delivered *)
+Fixpoint follows (k : key) (stack : list key) (ks : list key) (s : state) : outcome :=
+  match ks with
+  | [] => Ok s
+  | x :: ks' => match ens (k :: stack) s x with Ok s1 => follows k stack ks' s1 | other => other end
+  end.
+
+(* the value a task computes from the slots it was given *)
+Definition task_value (k : key) (rl : rule) (slots1 slots3 : list (option value)) : value :=
+  (F k (r_sig rl) (map payload_of (slots1 ++ slots3)) (map env (r_disc rl)) (obs k), obs k).
+
+(* taskIsComplete + finished-task processing: r is the result the rule had when the task was created *)
+Definition complete (s : state) (k : key) (rl : rule) (r : result) (bk : list key) (v : value) : state :=
+  let s := emit s (EComplete k v) in
+  let deps := order (st_epoch s) k (requested_deps rl bk) ++ map (fun x => mkDep x false false) (r_disc rl) in
+  let changed := match res_value r with Some old => negb (value_eqb old v) | None => true end in
+  let r' := mkRes (Some v) (r_sig rl) (if changed then st_epoch s else res_computedAt r) (st_epoch s) deps in
+  set_db (set_mem (unflag s k) k r') k r'.
+
+(* demandRule on a rule that needs to run: r is its (single-use-cleaned) result *)
+Definition run (k : key) (stack : list key) (r : result) (s : state) : outcome :=
+  let rl := rules k in
+  let s := emit (emit s (ECreate k)) (EStart k) in
+  let s := if negb (N.eqb (res_builtAt r) 0) && N.eqb (r_sig rl) (res_sig r) then emit s (EPrior k (res_value r)) else s in
+  match requests k stack (r_req rl) 0%nat s [] with
+  | (Ok s1, slots1) =>
+    match requests k stack (r_single rl) (length slots1) s1 [] with
+    | (Ok s2, slots2) =>
+      match follows k stack (r_follow rl) s2 with
+      | Ok s3 =>
+        let bk := branch_keys rl slots1 in
+        match requests k stack bk (length slots1 + length slots2)%nat s3 [] with
+        | (Ok s4, slots3) =>
+          let s5 := emit s4 (EAvail k) in
+          let s6 := complete s5 k rl r bk (task_value k rl slots1 slots3) in
+          (* discovered dependencies are brought up to date after the task finished *)
+          follows k stack (r_disc rl) s6
+        | (other, _) => other
+        end
+      | other => other
+      end
+    | (other, _) => other
+    end
+  | (other, _) => other
+  end.
+
+(* processRuleScanRequest: the recorded dependencies in order; the first changed non-order-only one triggers a run *)
+Fixpoint scan (k : key) (stack : list key) (r : result) (ds : list dep) (s : state) : outcome :=
+  match ds with
+  | [] => (* DoesNotNeedToRun: marked complete in memory only *)
+          Ok (set_mem s k (mkRes (res_value r) (res_sig r) (res_computedAt r) (st_epoch s) (res_deps r)))
+  | d :: ds' =>
+    match ens (k :: stack) s (d_key d) with
+    | Ok s1 =>
+      if negb (d_order d) && (res_builtAt r <? res_computedAt (get (st_mem s1) (d_key d)))
+      then run k stack r (emit s1 (ENeed k InputRebuilt (Some (d_key d))))
+      else scan k stack r ds' s1
+    | other => other
+    end
+  end.
+
+Definition ensure_body (stack : list key) (s : state) (k : key) : outcome :=
+  if existsb (N.eqb k) stack then Cycle s (k :: stack) else
+  let r0 := get (st_mem s) k in
+  if N.eqb (res_builtAt r0) (st_epoch s) then Ok s else     (* complete in this epoch *)
+  (* scanRule: single-use dependencies are cleaned first *)
+  let r := mkRes (res_value r0) (res_sig r0) (res_computedAt r0) (res_builtAt r0) (drop_single (res_deps r0)) in
+  let s := set_mem s k r in
+  if N.eqb (res_builtAt r) 0 then run k stack r (emit s (ENeed k NeverBuilt None))
+  else if flagged s k then run k stack r (emit s (ENeed k Forced None))
+  else if negb (N.eqb (r_sig (rules k)) (res_sig r)) then run k stack r (emit s (ENeed k SignatureChanged None))
+  else if negb (valid k r) then run k stack r (emit (emit s (EValid k false)) (ENeed k InvalidValue None))
+  else scan k stack r (res_deps r) (emit s (EValid k true)).
+
+End Step.
 
 Fixpoint ensure (fuel : nat) (stack : list key) (s : state) (k : key) {struct fuel} : outcome :=
   match fuel with
   | O => OutOfFuel
-  | S f =>
-    if existsb (N.eqb k) stack then Cycle s (k :: stack) else
-    let r0 := get (st_mem s) k in
-    if N.eqb (res_builtAt r0) (st_epoch s) then Ok s else     (* complete in this epoch *)
-    (* scanRule: single-use dependencies are cleaned first *)
-    let r := mkRes (res_value r0) (res_sig r0) (res_computedAt r0) (res_builtAt r0) (drop_single (res_deps r0)) in
-    let s := set_mem s k r in
-    let rl := rules k in
-    (* requests: ensure each key, bind its value to the next slot *)
-    let requests := fix requests (ks : list key) (single : bool) (slot : nat) (s : state) (acc : list (option value))
-                        : outcome * list (option value) :=
-      match ks with
-      | [] => (Ok s, acc)
-      | x :: ks' =>
-        match ensure f (k :: stack) s x with
-        | Ok s1 => let v := res_value (get (st_mem s1) x) in
-                   requests ks' single (S slot) (emit s1 (EProvide k slot x v)) (acc ++ [v])
-        | other => (other, acc)
-        end
-      end in
-    let follows := fix follows (ks : list key) (s : state) : outcome :=
-      match ks with
-      | [] => Ok s
-      | x :: ks' => match ensure f (k :: stack) s x with Ok s1 => follows ks' s1 | other => other end
-      end in
-    let run := fun (s : state) =>
-      let s := emit (emit s (ECreate k)) (EStart k) in
-      let s := if negb (N.eqb (res_builtAt r) 0) && N.eqb (r_sig rl) (res_sig r) then emit s (EPrior k (res_value r)) else s in
-      match requests (r_req rl) false 0%nat s [] with
-      | (Ok s1, slots1) =>
-        match requests (r_single rl) true (length slots1) s1 [] with
-        | (Ok s2, slots2) =>
-          match follows (r_follow rl) s2 with
-          | Ok s3 =>
-            let bk := branch_keys rl slots1 in
-            match requests bk false (length slots1 + length slots2)%nat s3 [] with
-            | (Ok s4, slots3) =>
-              let s5 := emit s4 (EAvail k) in
-              let used := map payload_of (slots1 ++ slots3) in
-              let v : value := (F k (r_sig rl) used (map env (r_disc rl)) (obs k), obs k) in
-              let s5 := emit s5 (EComplete k v) in
-              let requested := map (fun x => mkDep x false false) (r_req rl) ++ map (fun x => mkDep x false true) (r_single rl)
-                               ++ map (fun x => mkDep x true false) (r_follow rl) ++ map (fun x => mkDep x false false) bk in
-              let deps := order (st_epoch s5) k requested ++ map (fun x => mkDep x false false) (r_disc rl) in
-              let changed := match res_value r with Some old => negb (value_eqb old v) | None => true end in
-              let r' := mkRes (Some v) (r_sig rl) (if changed then st_epoch s5 else res_computedAt r) (st_epoch s5) deps in
-              let s6 := set_db (set_mem (unflag s5 k) k r') k r' in
-              (* discovered dependencies are brought up to date after the task finished *)
-              follows (r_disc rl) s6
-            | (other, _) => other
-            end
-          | other => other
-          end
-        | (other, _) => other
-        end
-      | (other, _) => other
-      end in
-    if N.eqb (res_builtAt r) 0 then run (emit s (ENeed k NeverBuilt None))
-    else if flagged s k then run (emit s (ENeed k Forced None))
-    else if negb (N.eqb (r_sig rl) (res_sig r)) then run (emit s (ENeed k SignatureChanged None))
-    else if negb (valid k r) then run (emit (emit s (EValid k false)) (ENeed k InvalidValue None))
-    else
-      let s := emit s (EValid k true) in
-      let scan := fix scan (ds : list dep) (s : state) : outcome :=
-        match ds with
-        | [] => (* DoesNotNeedToRun: marked complete in memory only *)
-                Ok (set_mem s k (mkRes (res_value r) (res_sig r) (res_computedAt r) (st_epoch s) (res_deps r)))
-        | d :: ds' =>
-          match ensure f (k :: stack) s (d_key d) with
-          | Ok s1 =>
-            if negb (d_order d) && (res_builtAt r <? res_computedAt (get (st_mem s1) (d_key d)))
-            then run (emit s1 (ENeed k InputRebuilt (Some (d_key d))))
-            else scan ds' s1
-          | other => other
-          end
-        end in
-      scan (res_deps r) s
+  | S f => ensure_body (ensure f) stack s k
   end.
+
+Definition bump_epoch (s : state) : state :=
+  mkSt (st_mem s) (st_epoch s + 1) (st_db s) (st_db_epoch s) (st_flag s) (st_log s).
+Definition commit_epoch (s : state) : state :=
+  mkSt (st_mem s) (st_epoch s) (st_db s) (st_epoch s) (st_flag s) (st_log s).
 
 (* one build of key k: the epoch is incremented first; afterwards the database iteration is updated *)
 Definition build (fuel : nat) (s : state) (k : key) : outcome :=
-  let s := mkSt (st_mem s) (st_epoch s + 1) (st_db s) (st_db_epoch s) (st_flag s) (st_log s) in
-  match ensure fuel [] s k with
-  | Ok s1 => Ok (mkSt (st_mem s1) (st_epoch s1) (st_db s1) (st_epoch s1) (st_flag s1) (st_log s1))
-  | Cycle s1 p => Cycle (mkSt (st_mem s1) (st_epoch s1) (st_db s1) (st_epoch s1) (st_flag s1) (st_log s1)) p
+  match ensure fuel [] (bump_epoch s) k with
+  | Ok s1 => Ok (commit_epoch s1)
+  | Cycle s1 p => Cycle (commit_epoch s1) p
   | OutOfFuel => OutOfFuel
   end.
 
